@@ -96,7 +96,7 @@ def cases(tier, seed, i, n):
                 yield dict(kind='proxy', target=('ws', 'wss')[c % 2], proxy='http-port', reply=rn, seg='cut', cut=c)
         # mapping: which proxy entry is used
         for tn in TARGETS:
-            for mapping in ('empty', 'http-only', 'https-only', 'both', 'env-both', 'env-http', 'env-none', 'other-scheme-only'):
+            for mapping in ('empty', 'empty-with-env', 'http-only', 'https-only', 'both', 'both-with-other-env', 'env-both', 'env-http', 'env-none', 'other-scheme-only'):
                 yield dict(kind='map', target=tn, mapping=mapping)
         # faults at every socket call of the proxy phase
         for tn in ('ws', 'wss'):
@@ -266,6 +266,13 @@ def run_map(case, acc):
     envv = {}
     if mp == 'empty':
         proxies = {}
+    elif mp == 'empty-with-env':
+        # an empty mapping disables proxying - whatever the environment says
+        proxies = {}
+        envv = {'HTTP_PROXY': 'http://envproxy.local:8888', 'HTTPS_PROXY': 'http://envproxy.local:8889'}
+    elif mp == 'both-with-other-env':
+        proxies = {'http': http_p, 'https': https_p}
+        envv = {'HTTP_PROXY': 'http://envproxy.local:8888', 'HTTPS_PROXY': 'http://envproxy.local:8889'}
     elif mp == 'http-only':
         proxies = {'http': http_p}
     elif mp == 'https-only':
